@@ -422,10 +422,29 @@ def r4_block_header(chk, put, mapb, get):
     ka = norm(calls_named(kr[0].value, {"self._stream.read"})[0].args[0])
     chk.decide(ka == k0, "C02.R4", f"{mapb.key}:key-read", mapb.where(kr[0]), f"reads {ka} bytes of key",
                f"map_blocks reads {ka} bytes as the key; the first header field {k0} is the key length")
+    loops_ = [l for l in walk_no_nested(mapb.node) if isinstance(l, ast.While)]
     sk = [c for c in calls_named(mapb.node, {"self._stream.seek"}) if len(c.args) == 2 and norm(c.args[1]) == "1"]
-    chk.require(len(sk) == 1, "map_blocks: expected one relative seek over the value")
-    chk.decide(norm(sk[0].args[0]) == k1, "C02.R4", f"{mapb.key}:value-skip", mapb.where(sk[0]), f"skips {k1} bytes",
-               f"map_blocks skips {norm(sk[0].args[0])} bytes; the value length is {k1}")
+    if len(sk) == 1:
+        chk.decide(norm(sk[0].args[0]) == k1, "C02.R4", f"{mapb.key}:value-skip", mapb.where(sk[0]), f"skips {k1} bytes",
+                   f"map_blocks skips {norm(sk[0].args[0])} bytes; the value length is {k1}")
+    else:
+        # absolute form: inside the scan loop, `pos = record.end` followed by seek(pos) (or seek(record.end))
+        ab = [c for l in loops_ for c in calls_named(l, {"self._stream.seek"}) if len(c.args) == 1]
+        chk.require(len(ab) == 1, "map_blocks: expected one seek over the value (relative, or absolute to the end of the record)")
+        from ..canon import Env
+
+        tgt = norm(Env(mapb.node).expand(ab[0].args[0], keep={"record"}, at=ab[0]))
+        chk.decide(tgt in ("record.end", "record.pos + record.size"), "C02.R4", f"{mapb.key}:value-skip", mapb.where(ab[0]), f"continues at {tgt}",
+                   f"after a record the scan continues at `{tgt}`, not at the end of that record")
+    # a scan loop that is bounded by arithmetic must admit a block whose header ends exactly at the end of the file
+    for l in loops_:
+        t = l.test
+        if isinstance(t, ast.Compare) and len(t.ops) == 1 and "_BLOCK_HEADER.size" in norm(t):
+            txt = norm(t)
+            okb = txt in ("pos + _BLOCK_HEADER.size <= size", "_BLOCK_HEADER.size + pos <= size", "size >= pos + _BLOCK_HEADER.size", "size - pos >= _BLOCK_HEADER.size")
+            chk.decide(okb, "C02.R4", f"{mapb.key}:scan-bound", mapb.where(l), f"while {txt}",
+                       f"the scan loop runs `while {txt}`: a block whose header ends exactly at the end of the file (empty key and empty value) is never listed - "
+                       "its key is missing from the table, a duplicate put is accepted, an open in mode 'a' truncates it away")
     # UKVRecord geometry
     want = {"size": ["_BLOCK_HEADER.size", "self.key_len", "self.record_len"],
             "pos_k": ["_BLOCK_HEADER.size", "self.pos"],
